@@ -9,7 +9,9 @@ checks, na = [], []
 for p in props:
     pid = p["id"]
     path = os.path.join(HERE, "props", pid.lower() + ".py")
-    if not os.path.exists(path):
+    nr = os.path.join(HERE, "not_ready.txt")
+    pending = set(open(nr).read().split()) if os.path.exists(nr) else set()
+    if not os.path.exists(path) or pid in pending:
         na.append(dict(property_id=pid, reason="check not built yet in this session (planned in DESIGN.md section 3); not claimed until its theorem and code tie exist"))
         continue
     # read metadata without importing heavy deps
